@@ -455,4 +455,64 @@ theorem getFor_sound {dd guard : Bool} {s : BSet} {mint maxt maxRes : Int} {r : 
       · simp at hg; subst hg; simp at hx
       · simp at hg
 
+/-! ### `remove` keeps the order of what stays -/
+
+theorem removeFirst_sublist (id : Nat) : ∀ (l l' : List Block), removeFirst id l = some l' → l'.Sublist l
+  | [], _, h => by simp [removeFirst] at h
+  | b :: bs, l', h => by
+    simp only [removeFirst] at h
+    split at h
+    · simp at h; subst h; exact List.sublist_cons_self b bs
+    · cases hr : removeFirst id bs with
+      | none => simp [hr] at h
+      | some r =>
+        simp [hr] at h
+        subst h
+        exact List.Sublist.cons_cons b (removeFirst_sublist id bs r hr)
+
+theorem removeLevels_length (id : Nat) : ∀ (ls : List (List Block)), (removeLevels id ls).length = ls.length
+  | [] => rfl
+  | l :: ls => by
+    simp only [removeLevels]
+    split
+    · simp
+    · simp [removeLevels_length id ls]
+
+theorem removeLevels_level (id : Nat) : ∀ (ls : List (List Block)) (i : Nat) (l' : List Block),
+    (removeLevels id ls)[i]? = some l' → ∃ l, ls[i]? = some l ∧ l'.Sublist l
+  | [], i, l', h => by simp [removeLevels] at h
+  | l :: ls, i, l', h => by
+    simp only [removeLevels] at h
+    split at h
+    next r hr =>
+      cases i with
+      | zero => simp at h; subst h; exact ⟨l, by simp, removeFirst_sublist id l _ hr⟩
+      | succ i => simp at h; exact ⟨l', by simpa using h, List.Sublist.refl _⟩
+    next hr =>
+      cases i with
+      | zero => simp at h; subst h; exact ⟨l, by simp, List.Sublist.refl _⟩
+      | succ i =>
+        simp at h
+        obtain ⟨l0, h1, h2⟩ := removeLevels_level id ls i l' h
+        exact ⟨l0, by simpa using h1, h2⟩
+
+theorem removeLevels_mem_level (id : Nat) (ls : List (List Block)) (l' : List Block) (h : l' ∈ removeLevels id ls) :
+    ∃ l ∈ ls, l'.Sublist l := by
+  obtain ⟨i, hi, hil⟩ := List.getElem_of_mem h
+  obtain ⟨l, h1, h2⟩ := removeLevels_level id ls i l' (by rw [List.getElem?_eq_getElem hi, hil])
+  exact ⟨l, List.mem_of_getElem? h1, h2⟩
+
+theorem removeLevels_flatten_sublist (id : Nat) : ∀ (ls : List (List Block)),
+    (removeLevels id ls).flatten.Sublist ls.flatten
+  | [] => by simp [removeLevels]
+  | l :: ls => by
+    simp only [removeLevels]
+    split
+    next r hr =>
+      simp only [List.flatten_cons]
+      exact List.Sublist.append (removeFirst_sublist id l r hr) (List.Sublist.refl _)
+    next hr =>
+      simp only [List.flatten_cons]
+      exact List.Sublist.append (List.Sublist.refl _) (removeLevels_flatten_sublist id ls)
+
 end Thanos.BlockSet
